@@ -64,7 +64,7 @@ def run(ctx):
     # (iii) along histories: objects filled / changed in place (list.append, map[key] = v, m.sub.x = v on lazily created
     # containers), interleaved with len / bytes calls -- after every call len (read first), dump and the delimited dump
     # must agree with bytes (a size computed earlier, or presence flags the in-place change never touched, must not matter)
-    hist.run_histories(ctx, ["TRep", "TMapV", "TMapK", "TMix", "TOne", "TWkt", "Node", "TOpt"], 600 if quick else 20000, 10, "inplace", judge_len=True)
+    hist.run_histories(ctx, ["TScal", "TScal", "TRep", "TMapV", "TMapK", "TMix", "TOne", "TWkt", "Node", "TOpt"], 600 if quick else 20000, 10, "inplace", judge_len=True)
     ctx.validate("Trace_Codec", ev2, header={"schema": small}, shard=6000)
 
 
